@@ -44,16 +44,18 @@ def _key(ctx, f, e):
 
 
 def _guards_of(node, stop):
-    """enclosing `if` tests (as text with polarity) between node and function ``stop``."""
+    """atoms (core.facts form) of the enclosing `if` tests between node and function ``stop`` - independent of how the
+    test is spelled (`if c: A else: B` vs `if not c: B else: A`, `a == b` vs `b == a`)."""
+    from ..core.facts import atoms_of
     out = []
     n = node
     while n is not None and n is not stop:
         p = getattr(n, "_parent", None)
         if isinstance(p, ast.If):
-            if any(n is s for s in p.body):
-                out.append(U(p.test))
-            elif any(n is s for s in p.orelse):
-                out.append("not (" + U(p.test) + ")")
+            truth = True if any(n is s for s in p.body) else False if any(n is s for s in p.orelse) else None
+            if truth is not None:
+                at = atoms_of(p.test, truth) or {("truth", U(p.test), truth)}
+                out += sorted(at, key=repr)
         n = p
     return out
 
@@ -136,8 +138,8 @@ def keys_read(ctx, f: FuncInfo, _seen=None):
         if isinstance(x, ast.Subscript) and isinstance(x.value, ast.Name) and x.value.id == sv and isinstance(x.ctx, ast.Load):
             k = _key(ctx, f, x.slice)
             guards = _guards_of(x, f.node)
-            soft = any((f"'{k}' in {sv}" in g or (isinstance(x.slice, ast.Name) and f"{x.slice.id} in {sv}" in g))
-                       and not g.startswith("not") for g in guards)
+            soft = any(g[0] == "in" and g[3] is True and g[2] == sv and (g[1] == repr(k) or (isinstance(x.slice, ast.Name) and g[1] == x.slice.id))
+                       for g in guards)
             put(k, "soft" if soft else "hard")
         if isinstance(x, ast.Call) and isinstance(x.func, ast.Attribute) and x.func.attr == "get" \
                 and isinstance(x.func.value, ast.Name) and x.func.value.id == sv and x.args:
@@ -206,7 +208,7 @@ def s1(ctx, rep, sweep=False):
         unread = sorted(k for k in W if k not in R)
         missing = sorted(k for k, kind in R.items() if kind == "hard" and (k not in W or W[k]))
         # a conditional write read under a guard the restore side re-evaluates on the same attribute is fine
-        missing = [k for k in missing if not (k in W and all(("self." in g) for g in W[k]) and _restore_guarded(ctx, target, k, W[k]))]
+        missing = [k for k in missing if not (k in W and all(("self." in repr(g)) for g in W[k]) and _restore_guarded(ctx, target, k, W[k]))]
         ok = not unread and not missing
         construct = f"{c.name}: get_state keys == keys read by clone_from_state/_restore_from_state"
         if judged:
@@ -852,11 +854,7 @@ def s7(ctx, rep, sweep=False):
             if not guards:
                 rep.ok("S7", "state_coverage", construct, c, None, "written unconditionally")
                 continue
-            need = set()
-            for g in guards:
-                neg = g.startswith("not (")
-                e = parse_cond(g[5:-1] if neg else g)
-                need |= atoms_of(e, not neg)
+            need = set(guards)
             bad = []
             for m, nd, facts in muts[attr]:
                 if all(a in facts for a in need):
